@@ -101,8 +101,8 @@ where
             where
                 A: serde::de::MapAccess<'de>,
             {
-                let mut registers = None;
-                let mut b = None;
+                let mut registers: Option<Vec<u8>> = None;
+                let mut b: Option<usize> = None;
                 let mut buildhasher = None;
                 while let Some(key) = map.next_key()? {
                     match key {
@@ -130,6 +130,15 @@ where
                 let b = b.ok_or_else(|| de::Error::missing_field("b"))?;
                 let buildhasher =
                     buildhasher.ok_or_else(|| de::Error::missing_field("buildhasher"))?;
+                // same invariants as `HyperLogLog::with_registers_and_hash`, but reported as error
+                if b < 4 || b > 18 {
+                    return Err(de::Error::custom(
+                        "b must be larger or equal than 4 and smaller or equal than 18",
+                    ));
+                }
+                if registers.len() != (1_usize << b) {
+                    return Err(de::Error::custom("registers must have a length of 2^b"));
+                }
                 Ok(HyperLogLog {
                     registers,
                     b,
